@@ -25,4 +25,5 @@ let () =
   | "c06g" -> per_line M_c06.gline
   | "c15" -> per_line M_c15.line
   | "c02" -> per_line M_c02.line
+  | "cdir" -> per_line M_cdir.line
   | _ -> prerr_endline ("unknown mode " ^ mode); exit 2
